@@ -330,7 +330,7 @@ pub fn gen(rng: &mut Rng, tier: &str, dist: &mut Dist) -> Vec<String> {
         }
     }
     // ---- random damage of small files over the option space ----
-    let n = if thorough { 12000 } else { 1300 };
+    let n = if thorough { 40000 } else { 4000 };
     for i in 0..n {
         let sizes = gen_sizes(rng);
         if i % 3 != 2 {
@@ -386,7 +386,7 @@ pub fn gen(rng: &mut Rng, tier: &str, dist: &mut Dist) -> Vec<String> {
         }
     }
     // ---- strings that are not the format at all ----
-    let m = if thorough { 3000 } else { 400 };
+    let m = if thorough { 8000 } else { 1000 };
     for _ in 0..m {
         let len = rng.below(80) as usize;
         let mut v: Vec<u8> = (0..len).map(|_| if rng.chance(1, 4) { 0 } else { rng.next() as u8 }).collect();
